@@ -9,6 +9,7 @@ import (
 	"net/http"
 	"os"
 	"strings"
+	"sync"
 
 	"github.com/transparency-dev/witness/internal/config"
 	"github.com/transparency-dev/witness/internal/distribute/rest"
@@ -28,6 +29,7 @@ type c15Log struct {
 	wans string
 	dans string
 	cp   []byte // what the witness returns (nil = none)
+	valid []byte // this log's valid cosigned checkpoint
 }
 
 type c15Put struct {
@@ -118,6 +120,13 @@ func (w *c15Witness) GetLatestCheckpoint(_ context.Context, id string) ([]byte, 
 
 // c15Run executes one assignment and applies the oracle.
 func c15Run(run *ev.Run, u *uni.U, origins []string, wans, dans []string) {
+	c15RunOpt(run, u, origins, wans, dans, false)
+}
+
+// c15RunOpt: with warm, the same Distributor first performs a round in which
+// every log is valid and the distributor answers 200 (state carried from one
+// polling round into the next - a cache, a reused buffer - is then in play).
+func c15RunOpt(run *ev.Run, u *uni.U, origins []string, wans, dans []string, warm bool) {
 	var logs []*c15Log
 	for i, o := range origins {
 		key := u.K1
@@ -128,6 +137,7 @@ func c15Run(run *ev.Run, u *uni.U, origins []string, wans, dans []string) {
 		cl, _ := config.NewLog(o, key.VKey, "http://log.example/")
 		lg := &c15Log{cfg: cl, l: l, wans: wans[i], dans: dans[i]}
 		text := uni.Body(o, uint64(3+i), u.Main.Root(3+i))
+		lg.valid = u.Sign(text, key.Signer, u.W1.CosigSigner)
 		switch lg.wans {
 		case "valid":
 			lg.cp = u.Sign(text, key.Signer, u.W1.CosigSigner)
@@ -191,11 +201,33 @@ func c15Run(run *ev.Run, u *uni.U, origins []string, wans, dans []string) {
 	if err != nil {
 		ev.Internal("NewDistributor: %v", err)
 	}
+	if warm {
+		type saved struct {
+			w, d string
+			cp   []byte
+		}
+		var sv []saved
+		for _, l := range logs {
+			sv = append(sv, saved{l.wans, l.dans, l.cp})
+			l.wans, l.dans, l.cp = "valid", "200", l.valid
+		}
+		if err := d.DistributeOnce(context.Background()); err != nil {
+			run.Report("warm-round-failed", fmt.Sprintf("a round in which every log is valid and the distributor answers 200 failed: %v", err), nil)
+		}
+		for i, l := range logs {
+			l.wans, l.dans, l.cp = sv[i].w, sv[i].d, sv[i].cp
+		}
+		tr.puts, tr.all = nil, nil
+	}
 	derr := d.DistributeOnce(context.Background())
 
-	rep := map[string]any{"kind": "distribute", "origins": origins, "witness_answers": wans, "distributor_answers": dans}
+	rep := map[string]any{"kind": "distribute", "origins": origins, "witness_answers": wans, "distributor_answers": dans, "after_a_valid_round": warm}
 	desc := func(s string) string {
-		return fmt.Sprintf("logs %v, witness answers %v, distributor answers %v: %s", origins, wans, dans, s)
+		w := ""
+		if warm {
+			w = " (second round on the same Distributor, after a round in which everything was valid)"
+		}
+		return fmt.Sprintf("logs %v, witness answers %v, distributor answers %v%s: %s", origins, wans, dans, w, s)
 	}
 	wantFail := 0
 	putIdx := 0
@@ -291,10 +323,42 @@ func c15(tier string) int {
 	u := uni.New(ev.Seed(), 12, nil)
 	var total int64
 	origins := []string{"verif.example/d0", "verif.example/d1", "verif.example/d2", "verif.example/d3", "verif.example/d4", "verif.example/d5"}
-	exec := func(n int, wans, dans []string) {
-		c15Run(run, u, origins[:n], wans, dans)
-		total++
-		run.Distinct(fmt.Sprint(n, wans, dans))
+	type asg struct {
+		n          int
+		wans, dans []string
+	}
+	var asgs []asg
+	exec := func(n int, wans, dans []string) { asgs = append(asgs, asg{n, wans, dans}) }
+	defer func() {}()
+	runAll := func() {
+		var mu sync.Mutex
+		var wg sync.WaitGroup
+		ch := make(chan asg, 256)
+		for w := 0; w < workers(); w++ {
+			wg.Add(1)
+			go func() {
+				defer wg.Done()
+				for a := range ch {
+					c15Run(run, u, origins[:a.n], a.wans, a.dans)
+					k := int64(1)
+					run.Distinct(fmt.Sprint(a.n, a.wans, a.dans))
+					if a.n <= 2 || tier == "thorough" {
+						// the same assignment as the SECOND polling round of a Distributor
+						c15RunOpt(run, u, origins[:a.n], a.wans, a.dans, true)
+						k++
+						run.Distinct(fmt.Sprint("warm", a.n, a.wans, a.dans))
+					}
+					mu.Lock()
+					total += k
+					mu.Unlock()
+				}
+			}()
+		}
+		for _, a := range asgs {
+			ch <- a
+		}
+		close(ch)
+		wg.Wait()
 	}
 	// 1 and 2 logs: all assignments.
 	for _, n := range []int{1, 2} {
@@ -350,13 +414,14 @@ func c15(tier string) int {
 		}
 		rec(0, 0, nil, nil)
 	}
+	runAll()
 	run.Sample(map[string]any{"logs": 3, "witness_answers": []string{"valid", "invalid-witness-sig", "valid"}, "distributor_answers": []string{"conn-error", "200", "redirect-302"}, "expect": "PUT for logs 0 and 2 only, exact bytes, error reporting 2 out of 3"})
 	run.Set("evaluations", total)
 	run.Set("assignments", total)
 	run.Set("exhaustive", true)
 	run.Set("witness_answer_menu", c15WitnessAnswers)
 	run.Set("distributor_answer_menu", c15DistAnswers)
-	run.Set("rule", fmt.Sprintf("the real Distributor.DistributeOnce with a scripted witness and an in-process stub distributor (RoundTripper): ALL assignments of (witness answer x distributor answer) for 1 and 2 logs; for 3..6 logs all assignments with at most %d logs (1-2 for 5-6 logs) deviating from (valid, 200) at every position. Oracle: exactly one PUT per log whose witness answer is valid, at /distributor/v0/logs/<id>/byWitness/<witness key name>/checkpoint, body byte-identical to what the witness reported; no PUT for any other log; every log attempted regardless of earlier failures; error iff some log failed, with the right count. distinct_nontrivial = distinct assignments", k))
+	run.Set("rule", fmt.Sprintf("the real Distributor.DistributeOnce with a scripted witness and an in-process stub distributor (RoundTripper): ALL assignments of (witness answer x distributor answer) for 1 and 2 logs, each also as the second polling round of a Distributor whose first round was entirely valid; for 3..6 logs all assignments with at most %d logs (1-2 for 5-6 logs) deviating from (valid, 200) at every position. Oracle: exactly one PUT per log whose witness answer is valid, at /distributor/v0/logs/<id>/byWitness/<witness key name>/checkpoint, body byte-identical to what the witness reported; no PUT for any other log; every log attempted regardless of earlier failures; error iff some log failed, with the right count. distinct_nontrivial = distinct assignments", k))
 	run.Assumption("a checkpoint carrying a second, foreign witness signature is outside the property's claim and is not judged; a connection error is modelled as failing before the request body is read")
 	return run.Finish()
 }
